@@ -433,6 +433,77 @@ func genC13Stress(rt *rapid.T) C13Stress {
 		Readers: rapid.IntRange(1, 6).Draw(rt, "r"), Rounds: rapid.IntRange(50, 400).Draw(rt, "rounds")}
 }
 
+// ---- (B2) disjoint writers: writes to different keys commute, so after all writers have
+// returned every key must be present - a write lost to a non-atomic Merge/Set shows here.
+
+type C13Disjoint struct {
+	MergeKeys int  `json:"merge_keys"`
+	Setters   int  `json:"setters"`
+	PerSetter int  `json:"per_setter"`
+	Prefill   bool `json:"prefill"` // store non-empty before the writers start
+	Rounds    int  `json:"rounds"`
+}
+
+func checkC13Disjoint(t *testing.T, c C13Disjoint) Verdict {
+	for round := 0; round < c.Rounds; round++ {
+		s := flyt.NewSharedStore()
+		want := 0
+		if c.Prefill {
+			s.Set("pre", 1)
+			want++
+		}
+		big := make(map[string]any, c.MergeKeys)
+		for i := 0; i < c.MergeKeys; i++ {
+			big[fmt.Sprintf("m%05d", i)] = i
+		}
+		start := make(chan struct{})
+		var wg sync.WaitGroup
+		wg.Add(1 + c.Setters)
+		go func() {
+			defer wg.Done()
+			<-start
+			s.Merge(big)
+		}()
+		for w := 0; w < c.Setters; w++ {
+			go func(w int) {
+				defer wg.Done()
+				<-start
+				for j := 0; j < c.PerSetter; j++ {
+					if j%3 == 2 {
+						s.Merge(map[string]any{fmt.Sprintf("s%d-%d", w, j): j})
+					} else {
+						s.Set(fmt.Sprintf("s%d-%d", w, j), j)
+					}
+				}
+			}(w)
+		}
+		close(start)
+		wg.Wait()
+		want += c.MergeKeys + c.Setters*c.PerSetter
+		if got := s.Len(); got != want {
+			missing := ""
+			for w := 0; w < c.Setters && missing == ""; w++ {
+				for j := 0; j < c.PerSetter; j++ {
+					if k := fmt.Sprintf("s%d-%d", w, j); !s.Has(k) {
+						missing = k
+						break
+					}
+				}
+			}
+			if missing == "" && c.Prefill && !s.Has("pre") {
+				missing = "pre"
+			}
+			return bad("C13:lost-write", "round %d: %d goroutines wrote disjoint keys concurrently (one Merge of %d keys, %d x %d Sets/Merges, prefilled=%v); afterwards Len()=%d, want %d; e.g. key %q is gone - a completed write was lost", round, 1+c.Setters, c.MergeKeys, c.Setters, c.PerSetter, c.Prefill, got, want, missing)
+		}
+	}
+	return Verdict{NonTrivial: true, Classes: []string{"disjoint-writers"}}
+}
+
+func genC13Disjoint(rt *rapid.T) C13Disjoint {
+	return C13Disjoint{MergeKeys: rapid.SampledFrom([]int{64, 512, 4096, 20000}).Draw(rt, "mk"), Setters: rapid.IntRange(1, 4).Draw(rt, "setters"),
+		PerSetter: rapid.IntRange(1, 40).Draw(rt, "per"), Prefill: rapid.Bool().Draw(rt, "prefill"), Rounds: rapid.IntRange(3, 12).Draw(rt, "rounds")}
+}
+
 func TestC13(t *testing.T) {
 	r := newRun(t, "C13")
 	defer r.finish()
@@ -443,6 +514,7 @@ func TestC13(t *testing.T) {
 	}
 	rapidPart(r, "histories", r.pick(600, 8000)/scale, genC13, checkC13)
 	rapidPart(r, "atomicity-stress", r.pick(150, 2000)/scale, genC13Stress, checkC13Stress)
+	rapidPart(r, "disjoint-writers", r.pick(120, 1500)/scale, genC13Disjoint, checkC13Disjoint)
 	if n := atomic.LoadInt64(&c13Unknown); n > 0 {
 		r.note("porcupine returned Unknown (timeout) for %d histories; they are not counted as violations", n)
 		if n > 50 {
@@ -454,4 +526,5 @@ func TestC13(t *testing.T) {
 func init() {
 	registerReplay("C13", checkC13)
 	registerReplaySub("C13", "atomicity-stress", checkC13Stress)
+	registerReplaySub("C13", "disjoint-writers", checkC13Disjoint)
 }
